@@ -212,3 +212,51 @@ def map_lookup_operator(k1: int, v1: int, v2: int, q: int) -> bool:
     post: _
     """
     return ev(T['mlookup'], k1=k1, v1=v1, v2=v2, q=q) == ([v1] if q == k1 else []) and ev(T['mlookup'], k1=k1, v1=v1, v2=v2, q='a') == [v2]
+
+
+# --- added after seeded-change review: key identity across types in map:merge and constructors -----------------------------------
+
+T.update(parse_all({
+    'mix_merge': 'map:merge((map{$k: "A"}, map{string($k): "B"}), map{"duplicates": $p})',
+    'mix_ctor': 'map{$k: "A", string($k): "B"}', 'mix_put': 'map:put(map{$k: "A"}, string($k), "B")',
+    'mix_merge_rev': 'map:merge((map{string($k): "B"}, map{$k: "A"}))',
+    'num_keys': 'map:merge((map{$k: "A"}, map{xs:decimal($k): "B"}, map{xs:double($k): "C"}), map{"duplicates": "use-last"})',
+}))
+KEYS31 = (0, 1, -1, 7, 10)
+
+
+@ob(budget=200, bound='integer key k from {0,1,-1,7,10} and the string key string(k): different keys in constructors, map:put and map:merge (5 policies chosen by the solver)',
+    funcs=['elementpath/compare.py:same_key', F31 + ':map:merge', 'elementpath/xpath_tokens/maps.py'])
+def map_key_identity_across_types(ki: int, pi: int) -> bool:
+    """
+    pre: 0 <= ki <= 4 and 0 <= pi <= 3
+    post: _
+    """
+    k = KEYS31[ki]
+    policy = ('use-first', 'use-last', 'use-any', 'combine')[pi]
+    for key in ('mix_ctor', 'mix_put', 'mix_merge_rev'):
+        m = T[key].evaluate(XPathContext(item=1, variables={'k': k}))
+        if len(m) != 2 or m(k) != 'A' or m(str(k)) != 'B':
+            return False
+    m = T['mix_merge'].evaluate(XPathContext(item=1, variables={'k': k, 'p': policy}))
+    if len(m) != 2 or m(k) != 'A' or m(str(k)) != 'B':
+        return False
+    try:
+        m = T['mix_merge'].evaluate(XPathContext(item=1, variables={'k': k, 'p': 'reject'}))
+        if len(m) != 2:
+            return False
+    except ElementPathError:
+        return False
+    return True
+
+
+@ob(budget=60, tbudget=600, kind='hunt', bound='integer, decimal and double keys of equal value from {0,1,-1,7,10} are the same key (Decimal/double construction: bug-hunting)',
+    funcs=['elementpath/compare.py:same_key', F31 + ':map:merge'])
+def map_numeric_keys_same(ki: int) -> bool:
+    """
+    pre: 0 <= ki <= 4
+    post: _
+    """
+    k = KEYS31[ki]
+    n = T['num_keys'].evaluate(XPathContext(item=1, variables={'k': k}))
+    return len(n) == 1 and n(k) == 'C'
